@@ -70,6 +70,20 @@ _CH = None          # (read fd, write fd) in a simulated child; None = pass-thro
 _LAST_KIND = [None]  # kind of the statement most recently attempted (for exception classification)
 _BYPASS = [0]        # DB-API calls that did not pass a scheduling point (reach probe)
 _PASS = [False]      # True while the child tears a run down (connections closed as at process exit)
+_VNOW = [0]          # the simulator's virtual clock (ms), delivered with every token
+_CLOCK_INSTALLED = [False]
+VIRTUAL_EPOCH = 1_700_000_000.0
+
+
+def _install_clock():
+    """Inside a body the wall clock is the simulator's discrete-event clock: code under test that derives anything from
+    time.time() sees the same instant in every process until the virtual clock advances (busy waits, stalls)."""
+    if _CLOCK_INSTALLED[0]:
+        return
+    import time as _time
+    _time.time = lambda: VIRTUAL_EPOCH + _VNOW[0] / 1000.0
+    _time.time_ns = lambda: int((VIRTUAL_EPOCH + _VNOW[0] / 1000.0) * 1e9)
+    _CLOCK_INSTALLED[0] = True
 
 _WS = re.compile(r"\s+")
 
@@ -129,6 +143,7 @@ def _point(kind, sql, attempt):
         if tok is None:
             os._exit(9)
         inject = tok[1]
+        _VNOW[0] = tok[2]
         if inject:
             raise sqlite3.OperationalError(inject)
         try:
@@ -273,6 +288,8 @@ def _child_loop(child_main, child_teardown):
         tok = _recv(_CH[0])          # the "start" scheduling point
         if tok is None:
             os._exit(9)
+        _VNOW[0] = tok[2]
+        _install_clock()
         failed = [False]
 
         def report(m):
@@ -553,7 +570,7 @@ def simulate(scripts, child_main, child_teardown, cfg, sched_rng=None, fault_rng
                 res.last_fault_step = res.steps
                 log.add(p.idx, "IOERR", [p.pending[0], inject])
             executed_kind = p.pending[0]
-            _send(p.w, ("go", inject))
+            _send(p.w, ("go", inject, res.vclock))
             p.state = "ready"
             while True:
                 m = _recv(p.r, timeout=REAL_WATCHDOG_S)
